@@ -384,11 +384,15 @@ def f_treeamend():
 
 # -- more families for the history checks (C01, C04, C06, C07) -------------------------------------
 
-def f_glob(present=("a", "b"), mode="tree", subs="none", cfg=0):
+def f_glob(present=("a", "b"), mode="tree", subs="none", cfg=0, nest=0):
     """One step per file matching data/${*n}.txt; the matches are static by tree or by pattern.
     subs="ab" restricts the named wildcard to [ab]: data/zz.txt then matches the default pattern
     of the wildcard but not the glob. cfg=1: the globbing is done by a sub-plan g.py that also
     has a static input cfg.txt (so it can be pending for a reason of its own)."""
+    if nest:
+        # the matched files live two levels down, and neither level exists at the start
+        body = [tr("G", ["data/raw/{n}.txt"], ["out/{n}.out"])]
+        return {"plan.py": script([["static", "data/raw/*.txt"], ["glob", "data/raw/${*n}.txt", {}, body]])}
     files = {f"data/{n}.txt": f"data {n}\n" for n in present}
     files["data/"] = ""
     body = [tr("G", ["data/{n}.txt"], ["out/{n}.out"])]
